@@ -1161,6 +1161,107 @@ void random3_wide()
   }
 }
 
+
+// ---- floating point coordinates.  intersection and extend_bounding_box only SELECT among the corner coordinates of
+// their operands (largest of the mins, smallest of the maxes ...): under the half-open reading the result is exact for
+// every coordinate value, however badly it behaves under + and -.  contains_point / contains / intersects are pure
+// comparisons.  Coordinates are drawn from values for which x + (y - x) != y is common (0.1, 0.9, 1e16, 1e-9 ...).
+template <class F>
+void float_selection(char const *fname)
+{
+  constexpr dim_t N = 2;
+  using box = fcppt::math::box::object<F, N>;
+  using vec = typename box::vector;
+  std::string const e = std::string("float-selection<") + fname + ",2>";
+  if (!vf::entry_enabled(e))
+    return;
+  vf::set_entry(e);
+  std::vector<F> const pool{F(-1e16), F(-3.3), F(-0.9), F(-0.1), F(-1e-9), F(0), F(1e-9), F(0.1), F(0.3), F(0.7), F(0.9), F(1), F(1.1), F(2.5), F(1e16), F(3e16)};
+  std::size_t const total = vf::tier<std::size_t>(6000, 300000);
+  for (std::size_t i = 0; i < total; ++i)
+  {
+    if (!vf::mine(i))
+      continue;
+    vf::rng g(vf::hash_mix(vf::hash_mix(vf::opts().seed, vf::hash_str(e)), i));
+    std::array<F, N> alo{}, ahi{}, blo{}, bhi{};
+    for (dim_t k = 0; k < N; ++k)
+    {
+      F x = g.pick(pool), y = g.pick(pool);
+      alo[k] = std::min(x, y);
+      ahi[k] = std::max(x, y);
+      x = g.pick(pool);
+      y = g.pick(pool);
+      blo[k] = std::min(x, y);
+      bhi[k] = std::max(x, y);
+    }
+    if (!vf::begin_case("i=%zu a=[(%.17g,%.17g),(%.17g,%.17g)) b=[(%.17g,%.17g),(%.17g,%.17g))", i, double(alo[0]), double(alo[1]), double(ahi[0]),
+                        double(ahi[1]), double(blo[0]), double(blo[1]), double(bhi[0]), double(bhi[1])))
+      continue;
+    vf::sample_case(1);
+    vf::note_distinct(vf::hash_mix(vf::hash_str(e), vf::hash_mix(vf::hash_bytes(alo.data(), sizeof alo) ^ vf::hash_bytes(ahi.data(), sizeof ahi),
+                                                                  vf::hash_bytes(blo.data(), sizeof blo) ^ (vf::hash_bytes(bhi.data(), sizeof bhi) << 1))));
+    box const a(vec(alo[0], alo[1]), vec(ahi[0], ahi[1])), b(vec(blo[0], blo[1]), vec(bhi[0], bhi[1]));
+    auto const bad = [&](char const *fn, char const *cls, std::string const &d) {
+      vf::violation(std::string(fn) + "/" + fname + ",2/" + cls, "mismatch", d + " case: " + vf::current_case());
+    };
+    auto const showb = [](box const &x) {
+      char buf[160];
+      std::snprintf(buf, sizeof buf, "[(%.17g,%.17g),(%.17g,%.17g))", double(x.pos().x()), double(x.pos().y()), double(x.max().x()), double(x.max().y()));
+      return std::string(buf);
+    };
+    bool a_ne = true, b_ne = true, common = true;
+    std::array<F, N> ilo{}, ihi{}, elo{}, ehi{};
+    for (dim_t k = 0; k < N; ++k)
+    {
+      a_ne = a_ne && alo[k] < ahi[k];
+      b_ne = b_ne && blo[k] < bhi[k];
+      ilo[k] = std::max(alo[k], blo[k]);
+      ihi[k] = std::min(ahi[k], bhi[k]);
+      elo[k] = std::min(alo[k], blo[k]);
+      ehi[k] = std::max(ahi[k], bhi[k]);
+      common = common && ilo[k] < ihi[k];
+    }
+    VF_COUNT("float-selection/cases");
+    // what was stored is what is read back
+    if (a.pos().x() != alo[0] || a.pos().y() != alo[1] || a.max().x() != ahi[0] || a.max().y() != ahi[1])
+      bad("box::object(pos,max)", "corners-changed", showb(a));
+    if (a_ne && b_ne)
+    {
+      bool const is = fcppt::math::box::intersects(a, b);
+      if (is != common)
+        bad("intersects", common ? "false-for-common-points" : "true-without-common-point", "");
+      box const r = fcppt::math::box::intersection(a, b);
+      if (common)
+      {
+        VF_COUNT("float-selection/common-points");
+        if (r.pos().x() != ilo[0] || r.pos().y() != ilo[1] || r.max().x() != ihi[0] || r.max().y() != ihi[1])
+          bad("intersection", "not-the-common-points", "got " + showb(r));
+      }
+      else if (r.pos().x() < r.max().x() && r.pos().y() < r.max().y())
+        bad("intersection", "disjoint-not-empty", "got " + showb(r));
+      box const x = fcppt::math::box::extend_bounding_box(a, b);
+      VF_COUNT("float-selection/extend");
+      if (x.pos().x() != elo[0] || x.pos().y() != elo[1] || x.max().x() != ehi[0] || x.max().y() != ehi[1])
+        bad("extend_bounding_box", "not-the-smallest-box", "got " + showb(x));
+      if (!fcppt::math::box::contains(x, a) || !fcppt::math::box::contains(x, b))
+        bad("extend_bounding_box", "does-not-contain-an-operand", "got " + showb(x));
+      bool sub = true;
+      for (dim_t k = 0; k < N; ++k)
+        sub = sub && alo[k] <= blo[k] && bhi[k] <= ahi[k];
+      if (fcppt::math::box::contains(a, b) != sub)
+        bad("contains", sub ? "false-for-subset" : "true-for-non-subset", "");
+    }
+    // membership of the operands' corner coordinates (all combinations)
+    for (F px : {alo[0], ahi[0], blo[0], bhi[0]})
+      for (F py : {alo[1], ahi[1], blo[1], bhi[1]})
+      {
+        bool const in = alo[0] <= px && px < ahi[0] && alo[1] <= py && py < ahi[1];
+        if (fcppt::math::box::contains_point(a, vec(px, py)) != in)
+          bad("contains_point", in ? "member-rejected" : "non-member-accepted", "");
+      }
+  }
+}
+
 #ifndef VF_SLICE
 #define VF_SLICE -2 // single translation unit build: everything
 #endif
@@ -1190,6 +1291,8 @@ void vf_slice_2() { all_for_type<unsigned>(); }
 void vf_slice_3()
 {
   all_for_type<vf::heavy>();
+  float_selection<double>("double");
+  float_selection<float>("float");
   vf::count("heavy/constructed", vf::heavy_stats().constructed);
   vf::count("heavy/moved", vf::heavy_stats().moved);
   vf::count("heavy/moved-from-reads(observed)", vf::heavy_stats().moved_from_reads);
@@ -1213,7 +1316,7 @@ void body()
         "intersects/false-separated", "contains/true-shared-face", "contains/true-strictly-inside", "contains/false",
         "extend_bounding_box/judged", "shrink/nonempty-result", "shrink/empty-result", "stretch_absolute/nonempty-result",
         "stretch_absolute/empty-result", "random3/small-cases", "random3/wide-cases", "random3/wide-disjoint",
-        "random3/wide-common-points", "random3/wide-contains-true"})
+        "random3/wide-common-points", "random3/wide-contains-true", "float-selection/common-points", "float-selection/extend"})
     vf::require_bucket(b);
   vf_slice_0();
   vf_slice_1();
